@@ -103,27 +103,36 @@ func swapCheck(run *core.Run, prop string) {
 		core.Fatal("%v", err)
 	}
 	cfg.SwapConfig.Entries = append(cfg.SwapConfig.Entries, &definition.SwapAssets{KeyIdHash: implementation.PubKeyToKeyIdHash(pub2), Znn: new(big.Int).Set(keys["k2"].znn), Qsr: new(big.Int).Set(keys["k2"].qsr)})
-	p, err := node.New("swap-fixture", node.Options{Producer: true, Genesis: cfg})
-	if err != nil {
-		core.Fatal("swap fixture: %v", err)
-	}
-	// the epoch the behaviours start in: just short of the first decay boundary, in the middle of a period, or at a period's last epoch
-	startEpoch := []int{89, 100, 118}[int(run.Seed)%3]
+	// the epoch a behaviour starts in: just short of the first decay boundary, in the middle of a period, or at a period's last epoch
+	startEpochs := []int{89, 100, 118}
 	epochSlots := walk.EpochMomentums
-	core.Must(p.Produce(startEpoch*epochSlots - 1))
-	core.Must(p.ProduceN(2))
 	epochOf := func(n *node.Node) int {
 		return int(n.Cons.FrontierPillarReader().EpochTicker().ToTick(*n.Frontier().Timestamp))
 	}
-	if e := epochOf(p); e != startEpoch {
-		core.Fatal("swap fixture: at epoch %d, wanted %d", e, startEpoch)
+	type swapFixture struct {
+		dir    string
+		height uint64
 	}
-	fxDir, fxHeight := p.Dir, p.Height()
-	p.StopKeepDir()
-	defer os.RemoveAll(fxDir)
+	var fixtures []swapFixture
+	for _, se := range startEpochs {
+		p, err := node.New("swap-fixture", node.Options{Producer: true, Genesis: cfg})
+		if err != nil {
+			core.Fatal("swap fixture: %v", err)
+		}
+		core.Must(p.Produce(se*epochSlots - 1))
+		core.Must(p.ProduceN(2))
+		if e := epochOf(p); e != se {
+			core.Fatal("swap fixture: at epoch %d, wanted %d", e, se)
+		}
+		fixtures = append(fixtures, swapFixture{p.Dir, p.Height()})
+		p.StopKeepDir()
+		defer os.RemoveAll(p.Dir)
+	}
 	users := map[string]*wallet.KeyPair{"u1": g.User1, "u2": g.User2}
 	outcomes := map[string]int{}
 	for bi, b := range behaviours {
+		fi := (bi + int(run.Seed)) % len(fixtures)
+		fxDir, fxHeight, startEpoch := fixtures[fi].dir, fixtures[fi].height, startEpochs[fi]
 		dir := fmt.Sprintf("%s-b%d", fxDir, bi)
 		if out, err := exec.Command("cp", "-r", fxDir, dir).CombinedOutput(); err != nil {
 			core.Fatal("copying the swap fixture: %v %s", err, out)
@@ -246,7 +255,7 @@ func swapCheck(run *core.Run, prop string) {
 			run.Traces++
 		}()
 	}
-	run.Set("swap_behaviours", fmt.Sprintf("%d transitions in the edge cover of Swap.tla (2 entries, 2 callers, 3 classes of signature, 0..11 decay periods), every %d-th one that ends in a retrieval replayed from a copy of a chain at epoch %d: %d behaviours; paid amounts, the swap contract's mint requests and the entries compared", total, every, startEpoch, len(behaviours)))
+	run.Set("swap_behaviours", fmt.Sprintf("%d transitions in the edge cover of Swap.tla (2 entries, 2 callers, 3 classes of signature, 0..11 decay periods), every %d-th one that ends in a retrieval replayed from a copy of a chain at epoch 89, 100 or 118 (in turn): %d behaviours; paid amounts, the swap contract's mint requests and the entries compared", total, every, len(behaviours)))
 	run.Set("swap_outcomes", outcomes)
 	if outcomes["for-caller/ok"] == 0 || outcomes["for-caller/refund"] == 0 || outcomes["for-other/rejected"] == 0 {
 		core.Fatal("vacuity: swap replay outcomes %v", outcomes)
